@@ -93,6 +93,11 @@ EndWhy(C, hdr, e, on) ==
   ELSE ""
 DoEnd(C, hdr, e) == [C EXCEPT !.over = TRUE]
 
+\* C03: an ultimate-reduction answer is served only from a call node all of whose subtree tasks (every task hash
+\* reachable over the recorded call edges) are current; `stale` counts the ones that are not
+UltWhy(C, hdr, e, on) ==
+  IF "shallow" \in on /\ e.stale > 0 THEN "shallow:ultimate-hit-on-a-call-tree-with-edited-tasks" ELSE ""
+
 Why(C, hdr, e, on) ==
   CASE e.ev = "submit"    -> SubmitWhy(C, hdr, e, on)
     [] e.ev = "finish"    -> FinishWhy(C, hdr, e, on)
@@ -100,6 +105,7 @@ Why(C, hdr, e, on) ==
     [] e.ev = "job_start" -> JobStartWhy(C, hdr, e, on)
     [] e.ev = "job_end"   -> JobEndWhy(C, hdr, e, on)
     [] e.ev = "end"       -> EndWhy(C, hdr, e, on)
+    [] e.ev = "ult_hit"   -> UltWhy(C, hdr, e, on)
     [] OTHER -> "unknown-event"
 Do(C, hdr, e) ==
   CASE e.ev = "submit"    -> DoSubmit(C, hdr, e)
@@ -108,6 +114,7 @@ Do(C, hdr, e) ==
     [] e.ev = "job_start" -> DoJobStart(C, hdr, e)
     [] e.ev = "job_end"   -> DoJobEnd(C, hdr, e)
     [] e.ev = "end"       -> DoEnd(C, hdr, e)
+    [] e.ev = "ult_hit"   -> C
 
 \* the invariant the limits clauses are meant to establish (checked on every contract state)
 WithinLimits(C, hdr) == \A r \in ResOf(hdr) : C.held[r] <= Lim(hdr, r) /\ C.held[r] >= 0
